@@ -150,7 +150,7 @@ static int cmd_vss(char** tok, int nt)
     return 1;
 }
 
-/* SA pack <destcap> <hex,hex,...>     SA count <blobhex>     SA unpack <req> <withdest> <blobhex> <cap,cap,...>   */
+/* SA pack <destcap> <hex,hex,...>     SA count <blobhex>     SA unpack <req> <destpattern 0101..> <blobhex> <cap,cap,...>   */
 typedef struct { const char* op; VssDataStringArray_t arr; VssDataString_t* ptrs[512]; VssDataString_t strs[512]; int n; uint64_t ret; } SaCtx;
 static void sa_fn(void* p)
 {
@@ -192,7 +192,8 @@ static int cmd_sa(char** tok, int nt)
         return 1;
     }
     if (!strcmp(c.op, "unpack") && nt >= 6) {
-        c.n = atoi(tok[2]); int withdest = atoi(tok[3]);
+        c.n = atoi(tok[2]); const char* wds = tok[3]; size_t wdl = strlen(wds);   /* per string: 1 = destination supplied, 0 = NULL; last char repeats */
+#define WD(i) (wdl && wds[0] != '-' && wds[(size_t)(i) < wdl ? (size_t)(i) : wdl - 1] == '1')
         size_t l = unhex(tok[4], blob, sizeof blob);
         c.arr.data = ext_source(blob, l); c.arr.data_length = (uint16_t)l;
         long caps[512]; int nc = 0; char* s = tok[5];
@@ -201,7 +202,7 @@ static int cmd_sa(char** tok, int nt)
         for (int i = 0; i < c.n && i < 512; i++) {
             long cap = i < nc ? caps[i] : 0;
             dests[i] = NULL;
-            if (withdest) dests[i] = (i < 8) ? ext_dest(1 + i, cap, 0xCD) : dummy;
+            if (WD(i)) dests[i] = (i < 8) ? ext_dest(1 + i, cap, 0xCD) : dummy;
             c.strs[i].data_length = 0xBEEF; c.strs[i].data = (char*)dests[i]; c.ptrs[i] = &c.strs[i];
         }
         ext_call(sa_fn, &c, status, sizeof status, c.arr.data);
@@ -210,8 +211,8 @@ static int cmd_sa(char** tok, int nt)
             long cap = i < nc ? caps[i] : 0;
             unsigned dl = c.strs[i].data_length;
             printf("%s%u:", i ? "," : "", dl);
-            if (withdest && i < 8 && dl != 0xBEEF) puthex(dests[i], dl > (unsigned)cap ? (size_t)cap : dl); else putchar('-');
-            if (withdest && i < 8 && ext_dest_dirty(1 + i, cap, 0xCD)) printf("!dirty");
+            if (WD(i) && i < 8 && dl != 0xBEEF) puthex(dests[i], dl > (unsigned)cap ? (size_t)cap : dl); else putchar('-');
+            if (WD(i) && i < 8 && ext_dest_dirty(1 + i, cap, 0xCD)) printf("!dirty");
         }
         if (c.n == 0) putchar('-');
         putchar('\n');
